@@ -233,7 +233,9 @@ def validate_chunks(ctx, trace, module, chunk, sigprefix):
         if ev.get("ev") == "Norm":
             same = ev["raw"]["v"] == ev["norm"]["v"]
             sig = "%s:name%x:%s->%s:%s" % (sigprefix, ev["name"], ev["raw"]["kind"], ev["norm"]["kind"], "class-or-conversion" if same else "payload")
-            what = "Attribute::value() of name 0x%x turned %s into %s" % (ev["name"], ev["raw"], ev["norm"])
+            what = ("Attribute::value() of name 0x%x turned %s into %s" % (ev["name"], ev["raw"], ev["norm"])) if not same or ev["raw"]["kind"] == ev["norm"]["kind"] and False else \
+                   ("value of name 0x%x: raw %s, normalised %s, conversions (udata/sdata/offset/u8/u16) %s: outside the value's class or not the zero/sign extension of the payload" %
+                    (ev["name"], ev["raw"], ev["norm"], ev.get("conv")))
         else:
             bad = [a for a in ev.get("attrs", []) if a.get("size", -1) >= 0 and a["size"] != a["n"]]
             sig = "%s:die:%s" % (sigprefix, ("size-vs-consumed:%s" % fname(bad[0]["form"])) if bad else
@@ -242,7 +244,7 @@ def validate_chunks(ctx, trace, module, chunk, sigprefix):
         ctx.violation(sig, what, ev, None)
         pos += idx
         rejected += 1
-        if rejected >= 6:
+        if rejected >= 3:
             # each rejection costs a TLC restart; the violations found so far decide the run
             log("[c03] %d events rejected, the remaining %d events of this trace are not validated" % (rejected, len(lines) - pos))
             break
